@@ -574,6 +574,7 @@ time_t vw_time(time_t *t)
 int vw_rand(void)
 {
 	vw_proc *pr = curproc("rand");
+	if (pr->rand_forced_pos < pr->nrand_forced) return pr->rand_forced[pr->rand_forced_pos++];
 	pr->rand_state = pr->rand_state * 1103515245u + 12345u;
 	return (int)((pr->rand_state >> 1) & 0x7fffffff);
 }
